@@ -8,6 +8,9 @@
 (* 1..20 / 1..15 from the right, mod 47; K is computed over data + C, which is one more position of the same automaton).   *)
 (* The automaton is tied to the operators the trace specifications evaluate (EAN!Check, Codabar!CheckDigit25,             *)
 (* Code39!Weighted) by the ASSUMEs below over all short sequences; those operators are bound to the code by C06/C07/C08/C14.*)
+(* "c39": plain sum modulo 43. "c128": start character weight 1, k-th data symbol weight k, modulo 103 - detection holds   *)
+(* while every weight is below 103, i.e. up to 102 data symbols; the _c128limit cfg (104 positions) must be VIOLATED: a     *)
+(* substitution at data position 103 is invisible to the standard's check character (a content may need up to 161 symbols).*)
 (* A transposition lemma is deliberately absent: GS1 weights do not detect swapping digits that differ by five.           *)
 EXTENDS Integers, Sequences, FiniteSets, TLC
 CONSTANTS Scheme, MaxLen
@@ -15,14 +18,19 @@ E == INSTANCE EAN
 C == INSTANCE Code39
 D == INSTANCE Codabar
 
-M == IF Scheme = "ean" THEN 10 ELSE 47
-W(n, i) == IF Scheme = "ean" THEN (IF (n - i) % 2 = 0 THEN 3 ELSE 1)
-           ELSE ((n - i) % (IF Scheme = "c93c" THEN 20 ELSE 15)) + 1
+M == CASE Scheme = "ean" -> 10 [] Scheme = "c39" -> 43 [] Scheme = "c128" -> 103 [] OTHER -> 47
+W(n, i) == CASE Scheme = "ean" -> (IF (n - i) % 2 = 0 THEN 3 ELSE 1)
+             [] Scheme = "c39" -> 1                                    \* Code 39: plain sum modulo 43
+             [] Scheme = "c128" -> IF i = 1 THEN 1 ELSE i - 1          \* Code 128: start character weight 1, k-th data symbol weight k
+             [] OTHER -> ((n - i) % (IF Scheme = "c93c" THEN 20 ELSE 15)) + 1
 Fold(vals) == LET n == Len(vals)
                   F[i \in 0..n] == IF i = 0 THEN 0 ELSE (F[i - 1] + vals[i] * W(n, i)) % M
               IN F[n]
-Short == IF Scheme = "ean" THEN UNION {[1..k -> 0..9] : k \in 1..3} ELSE UNION {[1..k -> 0..46] : k \in 1..2}
-ASSUME Scheme \in {"ean", "c93c", "c93k"}
+Short == IF Scheme = "ean" THEN UNION {[1..k -> 0..9] : k \in 1..3} ELSE UNION {[1..k -> 0..(M - 1)] : k \in 1..2}
+K == INSTANCE Code128
+ASSUME Scheme \in {"ean", "c93c", "c93k", "c39", "c128"}
+ASSUME Scheme = "c39" => \A v \in Short : E!Sum(v) % 43 = Fold(v)            \* the rule Read39 / Draw39 apply inline
+ASSUME Scheme = "c128" => \A v \in Short : K!CheckValue(v) = Fold(v)
 ASSUME Scheme = "ean" => \A v \in Short : E!Check(v) = (10 - Fold(v)) % 10 /\ D!CheckDigit25(v) = E!Check(v)
 ASSUME Scheme = "c93c" => \A v \in Short : C!Weighted(v, 20) = Fold(v)
 ASSUME Scheme = "c93k" => \A v \in Short : C!Weighted(v, 15) = Fold(v)
@@ -32,9 +40,8 @@ vars == <<n, i, delta, hit>>
 Init == n \in 1..MaxLen /\ i = 0 /\ delta = 0 /\ hit = FALSE
 Same == i < n /\ i' = i + 1 /\ UNCHANGED <<n, delta, hit>>          \* a[i] = b[i]: the difference of the sums is unchanged
 Differ == /\ i < n /\ ~hit
-          /\ \E x \in 0..(M - 1), y \in 0..(M - 1) :
-                /\ x # y
-                /\ delta' = (delta + (x - y) * W(n, i + 1) + M * 64) % M
+          \* a[i] # b[i]: the symbol values are 0..M-1 in every scheme, so (a[i] - b[i]) % M ranges over exactly 1..M-1
+          /\ \E dd \in 1..(M - 1) : delta' = (delta + dd * W(n, i + 1)) % M
           /\ i' = i + 1 /\ hit' = TRUE /\ n' = n
 Next == Same \/ Differ
 Spec == Init /\ [][Next]_vars
